@@ -1078,6 +1078,27 @@ def c04t_facts(repo, sk, facts, notes):
 # ===== C04 repair block end =====
 
 
+# ===== C12/C16 formatter sharing block begin (add-only, owned by props/c12.py) =====
+def pfo_facts(repo, sk, facts, notes):
+    """the backend shares one PatternFormatter among loggers whose PatternFormatterOptions compare equal
+    (_dispatch_transit_event_to_sinks): operator== has to compare every data member, or a logger is handed another
+    logger's formatter. Fact: the set of members compared `x == other.x` (joined by &&) is the set of data members."""
+    try:
+        txt = open(os.path.join(repo, 'include', 'quill', 'core', 'PatternFormatterOptions.h')).read()
+    except OSError:
+        txt = ''
+    txt = re.sub(r'//[^\n]*', ' ', txt); txt = re.sub(r'/\*.*?\*/', ' ', txt, flags=re.S)
+    m = re.search(r'bool operator==\(PatternFormatterOptions const& other\) const noexcept\s*\{\s*return (.*?);\s*\}', txt, re.S)
+    body = re.sub(r'\s+', ' ', m.group(1)) if m else ''
+    cmp_members = re.findall(r'\b(\w+) == other\.(\w+)', body)
+    members = re.findall(r'^\s*(?:std::string|Timezone|bool)\s+(\w+)\s*(?:\{[^;]*\})?;', txt, re.M)
+    ok = bool(body) and bool(members) and all(a == b for a, b in cmp_members) and sorted(a for a, _ in cmp_members) == sorted(members) \
+        and re.fullmatch(r'(?:\w+ == other\.\w+)(?: && \w+ == other\.\w+)*', body) is not None
+    facts['pfo_eq_compares_every_member'] = bool(ok)
+    sk['pfo_members'] = sorted(members)
+# ===== C12/C16 formatter sharing block end =====
+
+
 def main():
     repo = REPO; out = os.path.join(os.path.dirname(os.path.abspath(__file__)), '..', 'coq', 'gen', 'SrcFacts.v')
     a = sys.argv[1:]
@@ -1099,6 +1120,7 @@ def main():
     c11f_facts(repo, sk, facts, notes)   # C11 repair block
     rot_facts(repo, sk, facts, notes)   # C14/C15 block
     c04t_facts(repo, sk, facts, notes)   # C04 repair block
+    pfo_facts(repo, sk, facts, notes)   # C12/C16 formatter sharing block
     txt = emit(sk, facts, notes, os.path.normpath(out))
     if dump:
         for k in sorted(sk):
